@@ -429,6 +429,9 @@ def run_other(args):
             want = bytes(route.nlri.pack_nlri(neg))
             if mp is None:
                 viols.append((f'other:{name}:no-mp-reach', 'the message holds no well-formed MP_REACH_NLRI'))
+            elif mp[2] not in ((12, 24, 48) if mp[1] in (128, 72) else (0, 4, 16, 32)):
+                # RFC 4760 3 / RFC 4364 4.3.2 / RFC 7752 3.4: a zero route distinguisher in front of the next hop for SAFI 128 and 72 only
+                viols.append((f'other:{name}:mp-nexthop-length', f'MP_REACH_NLRI for {mp[0]}/{mp[1]} carries a next hop of {mp[2]} octets ({route.extensive()[:100]})'))
             elif (mp[0], mp[1]) != fam or not mp[3].endswith(want):
                 viols.append((f'other:{name}:nlri-differs', f'MP_REACH for {mp[0]}/{mp[1]} carries NLRI octets {mp[3].hex()[:80]}, the route packs to {want.hex()[:80]}'))
     return _uniq(viols), ('other', name, delta, len(msgs)), 2
